@@ -85,6 +85,21 @@ def run_case(ctx, i, rng):
                                 style="mixed" if i % 3 == 1 else "simple")
         finally:
             sdn.namespace_manager.default = "DEFAULT"
+        if i % 6 == 2:
+            # names are free text: bus names that contain the query wildcards * and ?, one a prefix of the other, the longer first
+            for l_ in n.libraries:
+                for d_ in l_.definitions:
+                    buses = [c for c in d_.cables if len(c.wires) > 1]
+                    if len(buses) >= 2 and rng.random() < 0.7:
+                        a_, b_ = buses[0], buses[1]
+                        ch = rng.choice("*?")
+                        try:
+                            base = "wb%d" % rng.randrange(100)
+                            a_.name = base + ch + "x"
+                            b_.name = base + ch
+                            ctx.count("bus_names_with_wildcard_characters", 2)
+                        except ValueError:
+                            pass
         if i % 6 == 4:
             # very long names (around and beyond the 255-character identifier limit): the writer shortens the identifier,
             # the name itself must come back unchanged
@@ -182,6 +197,24 @@ def run_case(ctx, i, rng):
                         edits += 1
                     except ValueError:
                         pass        # EDIF policy may refuse (identifier of the sibling equals the new name ignoring case)
+        # ... and an ordinary replace-a-cell edit: an instance is removed and a fresh one with the same name is created
+        for l in list(n.libraries):
+            for dd in list(l.definitions):
+                kids = [x for x in dd.children if x.name and x.reference is not None]
+                if kids and rng.random() < 0.3:
+                    x = rng.choice(kids)
+                    nm_, ref_ = x.name, x.reference
+                    for op in list(x.pins):
+                        if op.wire is not None:
+                            op.wire.disconnect_pin(op)
+                    try:
+                        dd.remove_child(x)
+                        dd.create_child(nm_, reference=ref_)
+                        edits += 1
+                        ctx.count("instances_replaced_by_a_fresh_one_of_the_same_name")
+                    except ValueError as ex:
+                        ctx.violation("replace-edit-refused", "remove_child + create_child of the same name %r refused: %s" % (nm_[:30], str(ex)[:100]))
+                        return
         if edits:
             c4 = canon.canon_edif(n, with_identifiers=False)
             try:
